@@ -151,4 +151,10 @@ WellFormedTree(t, m) ==
        /\ \A i \in DOMAIN g.tr : ~(g.winv[i] /\ g.tr[i][1] = g.tr[i][3])
 \* the only normalisation a round trip may apply: an empty concept slot "(a /)" is written "(a)"
 Norm(t) == [t EXCEPT !.br = SelectSeq(t.br, LAMBDA b : ~(b.role = "/" /\ b.val = NULL))]
+\* the same tree with every alignment suffix in its own normal form (no leading zeros in the indices): what the library writes,
+\* since a marker keeps its indices as numbers (finding F25)
+NormRoleText(r) == IF r = "/" \/ SplitRole(r)[2] = "" THEN r ELSE SplitRole(r)[1] \o "~" \o NormAln(SplitRole(r)[2])
+NormAtomText(v) == IF v = NULL \/ SplitAtom(v)[2] = "" THEN v ELSE SplitAtom(v)[1] \o "~" \o NormAln(SplitAtom(v)[2])
+NormAlignments(t) == [t EXCEPT !.br = [k \in DOMAIN t.br |->
+                        [t.br[k] EXCEPT !.role = NormRoleText(@), !.val = IF t.br[k].kind = "atom" THEN NormAtomText(@) ELSE @]]]
 =============================================================================
